@@ -138,8 +138,13 @@ def check_real_policy_reevaluation(ctx):
     """the real MLPActorCriticPolicy on every action-space kind: every stored sample re-evaluates to its
     own stored value and log-probability (clipping active on the bounded boxes, non-unit std)"""
     from .common.realpolicy import reevaluation_cases
-    for c in reevaluation_cases(ctx, ctx.budget(7, 28)):
+    for c in reevaluation_cases(ctx, ctx.budget(10, 30)):
         slim = {k: v for k, v in c.items() if k not in ("policy", "flat")}
+        if c["masked"]:
+            ctx.count("real-policy:masked-rollouts")
+            if c["recorded_mask_differs_from_offered"] or c["actions_not_allowed_by_offered_mask"]:
+                ctx.phi_fail("mask_recorded_is_env_mask", slim, key="onpolicy:real_policy_mask")
+                continue
         ctx.case({"kind": "real-policy-reevaluation", **{k: slim[k] for k in ("algo", "action_space", "log_std_init",
                   "num_envs", "num_steps", "stored_log_prob")}}, True)
         ctx.count("real-policy:" + c["action_space"])
